@@ -37,6 +37,8 @@ type HarnessSpec struct {
 	FifoChans bool    `json:"fifo_chans"`
 	Replace  map[string]string `json:"replace"` // additional replacements for this harness only
 	Solver   string   `json:"solver"`  // primary back end for this harness (default: the spec's)
+	ConcretizeBits bool `json:"concretize_bits"` // fork over the values of bits.LeadingZeros64/TrailingZeros64 results
+	MaxConcretize  int  `json:"max_concretize"`
 	Note     string   `json:"note"`
 }
 
@@ -71,6 +73,7 @@ type RunCfg struct {
 	UnboundedChans  bool
 	MapOrderAny     bool
 	FifoChans       bool
+	ConcretizeBits  bool
 	Fallbacks       []string
 	OneShotS        int
 	MaxViolPerLabel int
@@ -782,7 +785,7 @@ func runCheck(specPath, tier, only string, workers int, noNative, trace bool) in
 	if cfg.MaxAlloc == 0 {
 		cfg.MaxAlloc = 4096
 	}
-	cfg.Fallbacks = []string{"z3-new", "cvc5", "cvc5-int", "z3"}
+	cfg.Fallbacks = []string{"z3-new", "cvc5", "cvc5-int", "cvc5-iand", "z3"}
 	cfg.OneShotS = spec.OneShotS
 	if cfg.OneShotS == 0 {
 		cfg.OneShotS = 60
@@ -836,6 +839,10 @@ func runCheck(specPath, tier, only string, workers int, noNative, trace bool) in
 		hcfg := *cfg
 		hcfg.MapOrderAny = h.MapOrderAny
 		hcfg.FifoChans = h.FifoChans
+		hcfg.ConcretizeBits = h.ConcretizeBits
+		if h.MaxConcretize > 0 {
+			hcfg.Limits.MaxConcretize = h.MaxConcretize
+		}
 		if len(h.Replace) > 0 {
 			hcfg.replFn = map[string]*ssa.Function{}
 			hcfg.noReplInside = map[*ssa.Function]bool{}
@@ -858,11 +865,24 @@ func runCheck(specPath, tier, only string, workers int, noNative, trace bool) in
 		if h.Solver != "" {
 			hsolver = h.Solver
 		}
+		if rp := os.Getenv("VERIF_ENGINE_REPLAY"); rp != "" {
+			// debugging aid: run one replay file concretely in the engine and print the outcome
+			var rf ReplayFile
+			data, _ := os.ReadFile(rp)
+			if json.Unmarshal(data, &rf) != nil || rf.Harness != h.Name {
+				continue
+			}
+			var ce *Engine
+			co := runConcrete(l, &hcfg, fn, h.Name, rf.Inputs, hsolver, &ce)
+			fmt.Printf("engine concrete replay: status=%s failed=%v reached=%v obs=%v err=%s\n", co.Status, co.Failed, co.Reached, co.Obs, co.Err)
+			os.Exit(3)
+		}
 		o, err := explore(l, &hcfg, fn, h.Name, workers, hsolver, h.Arith, trace)
 		if err != nil {
 			fatal2("explore %s: %v", h.Name, err)
 		}
 		outs = append(outs, hOut{h, o})
+		DumpQStat()
 		var q, sat, unsat, unk int
 		var st float64
 		for _, s := range o.stats {
@@ -936,6 +956,10 @@ func runCheck(specPath, tier, only string, workers int, noNative, trace bool) in
 		hcfg := *cfg
 		hcfg.MapOrderAny = false
 		hcfg.FifoChans = h.FifoChans
+		hcfg.ConcretizeBits = h.ConcretizeBits
+		if h.MaxConcretize > 0 {
+			hcfg.Limits.MaxConcretize = h.MaxConcretize
+		}
 		if len(h.Replace) > 0 {
 			hcfg.replFn = map[string]*ssa.Function{}
 			hcfg.noReplInside = map[*ssa.Function]bool{}
@@ -1228,8 +1252,16 @@ func replayFile(path string) int {
 	}
 	js, _ := json.MarshalIndent(res[0], "", " ")
 	fmt.Println(string(js))
-	if res[0].Status == "assert" || res[0].Status == "panic" {
+	want := rf.Label
+	if rf.Finding != "" {
+		want += "|" + rf.Finding
+	}
+	if (rf.Label == "uncaught-panic" && res[0].Status == "panic") || containsStr(res[0].Failed, want) {
 		fmt.Printf("REPRODUCED label=%s\n", rf.Label)
+		return 1
+	}
+	if res[0].Status == "assert" || res[0].Status == "panic" {
+		fmt.Printf("OTHER-FAILURE (not label=%s): status=%s failed=%v\n", rf.Label, res[0].Status, res[0].Failed)
 		return 1
 	}
 	return 0
